@@ -105,6 +105,11 @@ Step ==
                     \cup (IF liveinfo.malformed /\ ~Panicked /\ ~(liveinfo.err /\ e.ended)
                            THEN {"malformed frame did not end the connection with an error"} ELSE {})
                /\ UNCHANGED <<kind, codec, transit, written, nread, wend, bad15, bad07, liveinfo>>
+          [] e.ev = "Flood" ->
+               \* a long run of responses for ids nobody asked for: the endpoint survives and keeps serving
+               /\ bad16' = bad16 \cup (IF e.crashed THEN {"a flood of unsolicited responses crashed the client endpoint"} ELSE {})
+                                 \cup (IF ~e.crashed /\ ~e.served THEN {"after a flood of unsolicited responses a well-formed call is no longer served"} ELSE {})
+               /\ UNCHANGED <<kind, codec, transit, written, nread, wend, bad15, bad07, liveinfo>>
           [] e.ev = "ClientDl" ->
                /\ bad16' = IF e.panic THEN bad16 \cup {"caller-chosen deadline crashed the client"} ELSE bad16
                /\ UNCHANGED <<kind, codec, transit, written, nread, wend, bad15, bad07, liveinfo>>
